@@ -5,11 +5,12 @@ C24 — DICOM JSON output conforms to PS3.18 Annex F.
 
 `annexF` (Model/Json.lean) is the decidable Annex F validator; it does not mention `toJson`.
 Main theorem `annexF_toJson`: for every well-typed data set (value variant belongs to the VR,
-numbers in range, tags in the iteration order of the BTreeMap) without zero-multiplicity
-vectors / item-less sequences, serialisation succeeds (no panic) and the output satisfies
-`annexF`; nested sequences of any depth.  Without the last hypothesis all clauses but
-"empty ⇒ no Value member" hold (`annexF_toJson_lax`), and that clause is *false* of the code
-(`empty_vector_has_value`, finding `empty-value-has-member`).
+numbers in range, tags in the iteration order of the BTreeMap) serialisation succeeds (no panic)
+and the output satisfies `annexF`; nested sequences of any depth.
+The model is the repaired code: AT values as `GGGGEEEE` (defect #8) and no `Value` /
+`InlineBinary` member for a value without items (finding `empty-value-has-member`,
+findings/C24-empty-value-has-member.md).  `annexFWith true` is the validator without the
+"empty ⇒ no member" clause; the driver uses it only to name that failure.
 -/
 set_option linter.unusedSimpArgs false
 set_option linter.unusedVariables false
@@ -291,10 +292,25 @@ theorem or_not_isEmpty {α : Type} (lax : Bool) (l : List α)
   | inl h => simp [h]
   | inr h => simp [h]
 
+theorem primMembers_of_nonEmpty (vr : VR) (p : Prim) (h : p.nonEmpty = true) :
+    primMembers vr p = (match serClass vr with
+      | .strings => .ok [(kValue, asStrings p)]
+      | .person => .ok [(kValue, asPersonNames p)]
+      | .numbers => (asNumbers p).map fun j => [(kValue, j)]
+      | .binary => .ok [(kInline, inlineBinary p)]
+      | .sq => .panic) := by
+  unfold primMembers
+  rw [h]
+  rfl
+
+theorem primMembers_of_empty (vr : VR) (p : Prim) (h : p.nonEmpty = false) :
+    primMembers vr p = .ok [] := by
+  simp [primMembers, h]
+
 /-- textual value kinds (`Str`, `Strs`) in every VR that admits them -/
 theorem text_conforms (lax : Bool) (vr : VR) (p : Prim)
     (hp : (∃ l, p = .strs l) ∨ (∃ s, p = .str s)) (hk : kindOk vr p = true)
-    (hf : lax = true ∨ p.nonEmpty = true) :
+    (hnz : p.nonEmpty = true) :
     ∃ ms, primMembers vr p = .ok ms ∧
       elementF lax (.obj ((kVr, .str (vrName vr)) :: ms)) = true := by
   have hne : (toMultiStr p).isEmpty = false := by
@@ -306,18 +322,18 @@ theorem text_conforms (lax : Bool) (vr : VR) (p : Prim)
   cases vr <;> (first
     | (exfalso; (rcases hp with ⟨l, rfl⟩ | ⟨s, rfl⟩ <;> simp [kindOk] at hk); done)
     | (refine ⟨[(kValue, asStrings p)], ?_, ?_⟩
-       · rcases hp with ⟨l, rfl⟩ | ⟨s, rfl⟩ <;> rfl
+       · rw [primMembers_of_nonEmpty _ _ hnz]; rfl
        · rw [elementF_value _ _ _ .text rfl (by simp) (by simp), hnotTags, valuesF_text, hne]; simp)
     | (refine ⟨[(kValue, asPersonNames p)], ?_, ?_⟩
-       · rcases hp with ⟨l, rfl⟩ | ⟨s, rfl⟩ <;> rfl
+       · rw [primMembers_of_nonEmpty _ _ hnz]; rfl
        · rw [elementF_value _ _ _ .pn rfl (by simp) (by simp)]
          simp only [asPersonNames]
          rw [valuesF_pn, hne]; simp)
     | (rcases hp with ⟨l, rfl⟩ | ⟨s, rfl⟩
-       · refine ⟨[(kValue, .arr (l.map .str))], rfl, ?_⟩
+       · refine ⟨[(kValue, .arr (l.map .str))], by rw [primMembers_of_nonEmpty _ _ hnz]; rfl, ?_⟩
          rw [elementF_value _ _ _ .numstr rfl (by simp) (by simp), valuesF_numstr_strs]
-         exact or_not_isEmpty lax l (by simpa [Prim.nonEmpty] using hf)
-       · refine ⟨[(kValue, .arr [.str s])], rfl, ?_⟩
+         exact or_not_isEmpty lax l (Or.inr (by simpa [Prim.nonEmpty] using hnz))
+       · refine ⟨[(kValue, .arr [.str s])], by rw [primMembers_of_nonEmpty _ _ hnz]; rfl, ?_⟩
          rw [elementF_value _ _ _ .numstr rfl (by simp) (by simp)]
          simp [valuesF, isNumOrStr]))
 
@@ -336,133 +352,117 @@ theorem binary_elem (lax : Bool) (vr : VR) (p : Prim) (hc : fClass vr = .binary)
 
 /-- every well-typed primitive value: serialisation succeeds and the attribute object conforms -/
 theorem prim_conforms (lax : Bool) (vr : VR) (p : Prim)
-    (hk : kindOk vr p = true) (hr : p.inRange = true)
-    (hf : lax = true ∨ p = .empty ∨ p.nonEmpty = true) :
+    (hk : kindOk vr p = true) (hr : p.inRange = true) :
     ∃ ms, primMembers vr p = .ok ms ∧
       elementF lax (.obj ((kVr, .str (vrName vr)) :: ms)) = true := by
-  have hf' : p ≠ .empty → (lax = true ∨ p.nonEmpty = true) := by
-    intro hne
-    rcases hf with h | h | h
-    · exact Or.inl h
-    · exact absurd h hne
-    · exact Or.inr h
+  cases hne : p.nonEmpty with
+  | false => exact ⟨[], primMembers_of_empty vr p hne, elementF_empty lax vr⟩
+  | true =>
+  have h : lax = true ∨ p.nonEmpty = true := Or.inr hne
   cases p with
-  | empty => exact ⟨[], rfl, elementF_empty lax vr⟩
-  | strs l => exact text_conforms lax vr _ (Or.inl ⟨l, rfl⟩) hk (hf' (by simp))
-  | str s => exact text_conforms lax vr _ (Or.inr ⟨s, rfl⟩) hk (hf' (by simp))
+  | empty => simp [Prim.nonEmpty] at hne
+  | strs l => exact text_conforms lax vr _ (Or.inl ⟨l, rfl⟩) hk hne
+  | str s => exact text_conforms lax vr _ (Or.inr ⟨s, rfl⟩) hk hne
   | tags l =>
-    have h := hf' (by simp)
     cases vr <;> (first
       | (exfalso; simp [kindOk] at hk; done)
-      | (refine ⟨_, rfl, ?_⟩
+      | (refine ⟨_, by rw [primMembers_of_nonEmpty _ _ hne]; rfl, ?_⟩
          rw [elementF_value _ _ _ .at rfl (by simp) (by simp)]
          simp only [asStrings]; rw [valuesF_at]
          exact or_not_isEmpty lax l (by simpa [Prim.nonEmpty] using h)))
   | u8 l =>
-    have h := hf' (by simp)
     cases vr <;> (first
       | (exfalso; simp [kindOk] at hk; done)
-      | exact ⟨_, rfl, binary_elem lax _ _ rfl hr rfl h⟩)
+      | exact ⟨_, by rw [primMembers_of_nonEmpty _ _ hne]; rfl, binary_elem lax _ _ rfl hr rfl h⟩)
   | i16 l =>
-    have h := hf' (by simp)
     cases vr <;> (first
       | (exfalso; simp [kindOk] at hk; done)
-      | (refine ⟨_, rfl, ?_⟩
+      | (refine ⟨_, by rw [primMembers_of_nonEmpty _ _ hne]; rfl, ?_⟩
          rw [elementF_value _ _ _ _ rfl (by simp [fClass]) (by simp [fClass])]
          simp only [fClass]
          rw [valuesF_int_signed _ _ _ _ (by simpa [Prim.inRange] using hr)]
          exact or_not_isEmpty lax l (by simpa [Prim.nonEmpty] using h)))
   | u16 l =>
-    have h := hf' (by simp)
     cases vr <;> (first
       | (exfalso; simp [kindOk] at hk; done)
-      | exact ⟨_, rfl, binary_elem lax _ _ rfl hr rfl h⟩
-      | (refine ⟨_, rfl, ?_⟩
+      | exact ⟨_, by rw [primMembers_of_nonEmpty _ _ hne]; rfl, binary_elem lax _ _ rfl hr rfl h⟩
+      | (refine ⟨_, by rw [primMembers_of_nonEmpty _ _ hne]; rfl, ?_⟩
          rw [elementF_value _ _ _ _ rfl (by simp [fClass]) (by simp [fClass])]
          simp only [fClass]
          rw [valuesF_int_unsigned _ 65535 65536 (by decide) _ (by simpa [Prim.inRange] using hr)]
          exact or_not_isEmpty lax l (by simpa [Prim.nonEmpty] using h)))
   | i32 l =>
-    have h := hf' (by simp)
     cases vr <;> (first
       | (exfalso; simp [kindOk] at hk; done)
-      | (refine ⟨_, rfl, ?_⟩
+      | (refine ⟨_, by rw [primMembers_of_nonEmpty _ _ hne]; rfl, ?_⟩
          rw [elementF_value _ _ _ _ rfl (by simp [fClass]) (by simp [fClass])]
          simp only [fClass]
          rw [valuesF_int_signed _ _ _ _ (by simpa [Prim.inRange] using hr)]
          exact or_not_isEmpty lax l (by simpa [Prim.nonEmpty] using h))
-      | (refine ⟨_, rfl, ?_⟩
+      | (refine ⟨_, by rw [primMembers_of_nonEmpty _ _ hne]; rfl, ?_⟩
          rw [elementF_value _ _ _ .numstr rfl (by simp) (by simp), valuesF_numstr_ints]
          exact or_not_isEmpty lax l (by simpa [Prim.nonEmpty] using h)))
   | u32 l =>
-    have h := hf' (by simp)
     cases vr <;> (first
       | (exfalso; simp [kindOk] at hk; done)
-      | exact ⟨_, rfl, binary_elem lax _ _ rfl hr rfl h⟩
-      | (refine ⟨_, rfl, ?_⟩
+      | exact ⟨_, by rw [primMembers_of_nonEmpty _ _ hne]; rfl, binary_elem lax _ _ rfl hr rfl h⟩
+      | (refine ⟨_, by rw [primMembers_of_nonEmpty _ _ hne]; rfl, ?_⟩
          rw [elementF_value _ _ _ _ rfl (by simp [fClass]) (by simp [fClass])]
          simp only [fClass]
          rw [valuesF_int_unsigned _ 4294967295 4294967296 (by decide) _ (by simpa [Prim.inRange] using hr)]
          exact or_not_isEmpty lax l (by simpa [Prim.nonEmpty] using h)))
   | i64 l =>
-    have h := hf' (by simp)
     cases vr <;> (first
       | (exfalso; simp [kindOk] at hk; done)
-      | (refine ⟨_, rfl, ?_⟩
+      | (refine ⟨_, by rw [primMembers_of_nonEmpty _ _ hne]; rfl, ?_⟩
          rw [elementF_value _ _ _ _ rfl (by simp [fClass]) (by simp [fClass])]
          simp only [fClass]
          rw [valuesF_bigint_signed _ _ (by simpa [Prim.inRange] using hr)]
          exact or_not_isEmpty lax l (by simpa [Prim.nonEmpty] using h)))
   | u64 l =>
-    have h := hf' (by simp)
     cases vr <;> (first
       | (exfalso; simp [kindOk] at hk; done)
-      | exact ⟨_, rfl, binary_elem lax _ _ rfl hr rfl h⟩
-      | (refine ⟨_, rfl, ?_⟩
+      | exact ⟨_, by rw [primMembers_of_nonEmpty _ _ hne]; rfl, binary_elem lax _ _ rfl hr rfl h⟩
+      | (refine ⟨_, by rw [primMembers_of_nonEmpty _ _ hne]; rfl, ?_⟩
          rw [elementF_value _ _ _ _ rfl (by simp [fClass]) (by simp [fClass])]
          simp only [fClass]
          rw [valuesF_bigint_unsigned _ _ (by simpa [Prim.inRange] using hr)]
          exact or_not_isEmpty lax l (by simpa [Prim.nonEmpty] using h)))
   | f32 l =>
-    have h := hf' (by simp)
     cases vr <;> (first
       | (exfalso; simp [kindOk] at hk; done)
-      | exact ⟨_, rfl, binary_elem lax _ _ rfl hr rfl h⟩
-      | (refine ⟨_, rfl, ?_⟩
+      | exact ⟨_, by rw [primMembers_of_nonEmpty _ _ hne]; rfl, binary_elem lax _ _ rfl hr rfl h⟩
+      | (refine ⟨_, by rw [primMembers_of_nonEmpty _ _ hne]; rfl, ?_⟩
          rw [elementF_value _ _ _ .float rfl (by simp) (by simp), valuesF_float]
          exact or_not_isEmpty lax l (by simpa [Prim.nonEmpty] using h)))
   | f64 l =>
-    have h := hf' (by simp)
     cases vr <;> (first
       | (exfalso; simp [kindOk] at hk; done)
-      | exact ⟨_, rfl, binary_elem lax _ _ rfl hr rfl h⟩
-      | (refine ⟨_, rfl, ?_⟩
+      | exact ⟨_, by rw [primMembers_of_nonEmpty _ _ hne]; rfl, binary_elem lax _ _ rfl hr rfl h⟩
+      | (refine ⟨_, by rw [primMembers_of_nonEmpty _ _ hne]; rfl, ?_⟩
          rw [elementF_value _ _ _ .float rfl (by simp) (by simp), valuesF_float]
          exact or_not_isEmpty lax l (by simpa [Prim.nonEmpty] using h))
-      | (refine ⟨_, rfl, ?_⟩
+      | (refine ⟨_, by rw [primMembers_of_nonEmpty _ _ hne]; rfl, ?_⟩
          rw [elementF_value _ _ _ .numstr rfl (by simp) (by simp), valuesF_numstr_float]
          exact or_not_isEmpty lax l (by simpa [Prim.nonEmpty] using h)))
   | date l =>
-    have h := hf' (by simp)
     cases vr <;> (first
       | (exfalso; simp [kindOk] at hk; done)
-      | (refine ⟨_, rfl, ?_⟩
+      | (refine ⟨_, by rw [primMembers_of_nonEmpty _ _ hne]; rfl, ?_⟩
          rw [elementF_value _ _ _ .text rfl (by simp) (by simp)]
          simp only [asStrings, toMultiStr]; rw [valuesF_text]
          exact or_not_isEmpty lax _ (by simpa [Prim.nonEmpty] using h)))
   | dateTime l =>
-    have h := hf' (by simp)
     cases vr <;> (first
       | (exfalso; simp [kindOk] at hk; done)
-      | (refine ⟨_, rfl, ?_⟩
+      | (refine ⟨_, by rw [primMembers_of_nonEmpty _ _ hne]; rfl, ?_⟩
          rw [elementF_value _ _ _ .text rfl (by simp) (by simp)]
          simp only [asStrings, toMultiStr]; rw [valuesF_text]
          exact or_not_isEmpty lax _ (by simpa [Prim.nonEmpty] using h)))
   | time l =>
-    have h := hf' (by simp)
     cases vr <;> (first
       | (exfalso; simp [kindOk] at hk; done)
-      | (refine ⟨_, rfl, ?_⟩
+      | (refine ⟨_, by rw [primMembers_of_nonEmpty _ _ hne]; rfl, ?_⟩
          rw [elementF_value _ _ _ .text rfl (by simp) (by simp)]
          simp only [asStrings, toMultiStr]; rw [valuesF_text]
          exact or_not_isEmpty lax _ (by simpa [Prim.nonEmpty] using h)))
@@ -487,97 +487,58 @@ theorem tagsOf_lt : ∀ (es : List Elem), elemsWf es = true → ∀ t ∈ tagsOf
 
 mutual
 theorem elem_conforms (lax : Bool) : ∀ (e : Elem), e.wf = true → e.typed = true →
-    (lax = true ∨ e.full = true) → ∃ j, elemToJson e = .ok j ∧ elementF lax j = true
-  | .prim t vr p, _, ht, hf => by
+    ∃ j, elemToJson e = .ok j ∧ elementF lax j = true
+  | .prim t vr p, _, ht => by
     simp only [Elem.typed, Bool.and_eq_true] at ht
-    have hf' : lax = true ∨ p = .empty ∨ p.nonEmpty = true := by
-      cases hf with
-      | inl h => exact Or.inl h
-      | inr h =>
-        simp only [Elem.full, Bool.or_eq_true, beq_iff_eq] at h
-        exact Or.inr h
-    obtain ⟨ms, h1, h2⟩ := prim_conforms lax vr p ht.1 ht.2 hf'
+    obtain ⟨ms, h1, h2⟩ := prim_conforms lax vr p ht.1 ht.2
     exact ⟨_, by simp [elemToJson, h1], h2⟩
-  | .seq t vr items, hw, ht, hf => by
+  | .seq t vr [], _, _ => ⟨_, rfl, elementF_empty lax vr⟩
+  | .seq t vr (d :: ds), hw, ht => by
     simp only [Elem.typed, Bool.and_eq_true, beq_iff_eq] at ht
     simp only [Elem.wf, Bool.and_eq_true] at hw
-    have hf' : lax = true ∨ itemsFull items = true := by
-      cases hf with
-      | inl h => exact Or.inl h
-      | inr h =>
-        simp only [Elem.full, Bool.and_eq_true] at h
-        exact Or.inr h.2
-    obtain ⟨js, h1, h2, h3⟩ := items_conform lax items hw.2 ht.2 hf'
+    obtain ⟨js, h1, h2, h3⟩ := items_conform lax (d :: ds) hw.2 ht.2
     refine ⟨.obj [(kVr, .str (vrName vr)), (kValue, .arr js)], by simp [elemToJson, h1], ?_⟩
     have hvr : fClass vr = .sq := by rw [ht.1]; rfl
     rw [elementF_sq _ _ _ hvr]
-    simp only [itemsF, h2, Bool.and_true, h3]
-    cases hf with
-    | inl h => simp [h]
-    | inr h =>
-      simp only [Elem.full, Bool.and_eq_true] at h
-      simp [h.1]
-  | .pix t vr, _, _, _ => ⟨_, rfl, elementF_empty lax vr⟩
+    simp [itemsF, h2, h3]
+  | .pix t vr, _, _ => ⟨_, rfl, elementF_empty lax vr⟩
 theorem items_conform (lax : Bool) : ∀ (items : List (List Elem)), itemsWf items = true →
-    itemsTyped items = true → (lax = true ∨ itemsFull items = true) →
+    itemsTyped items = true →
     ∃ js, itemsToJson items = .ok js ∧ allF lax js = true ∧ js.isEmpty = items.isEmpty
-  | [], _, _, _ => ⟨[], rfl, rfl, rfl⟩
-  | d :: ds, hw, ht, hf => by
+  | [], _, _ => ⟨[], rfl, rfl, rfl⟩
+  | d :: ds, hw, ht => by
     simp only [itemsWf, Bool.and_eq_true] at hw
     simp only [itemsTyped, Bool.and_eq_true] at ht
-    have hf1 : lax = true ∨ elemsFull d = true := by
-      cases hf with
-      | inl h => exact Or.inl h
-      | inr h => simp only [itemsFull, Bool.and_eq_true] at h; exact Or.inr h.1
-    have hf2 : lax = true ∨ itemsFull ds = true := by
-      cases hf with
-      | inl h => exact Or.inl h
-      | inr h => simp only [itemsFull, Bool.and_eq_true] at h; exact Or.inr h.2
-    obtain ⟨ms, m1, m2, m3⟩ := members_conform lax d hw.1.1 ht.1 hf1
-    obtain ⟨js, j1, j2, _⟩ := items_conform lax ds hw.2 ht.2 hf2
+    obtain ⟨ms, m1, m2, m3⟩ := members_conform lax d hw.1.1 ht.1
+    obtain ⟨js, j1, j2, _⟩ := items_conform lax ds hw.2 ht.2
     refine ⟨.obj ms :: js, by simp [itemsToJson, m1, j1], ?_, rfl⟩
     simp only [allF, annexFWith, m2, j2, Bool.and_true, m3]
     exact keysAscending_map_tagKey _ hw.1.2 (tagsOf_lt d hw.1.1)
 theorem members_conform (lax : Bool) : ∀ (es : List Elem), elemsWf es = true →
-    elemsTyped es = true → (lax = true ∨ elemsFull es = true) →
+    elemsTyped es = true →
     ∃ ms, membersToJson es = .ok ms ∧ membersF lax ms = true ∧ keysOf ms = (tagsOf es).map tagKey
-  | [], _, _, _ => ⟨[], rfl, rfl, rfl⟩
-  | e :: es, hw, ht, hf => by
+  | [], _, _ => ⟨[], rfl, rfl, rfl⟩
+  | e :: es, hw, ht => by
     simp only [elemsWf, Bool.and_eq_true] at hw
     simp only [elemsTyped, Bool.and_eq_true] at ht
-    have hf1 : lax = true ∨ e.full = true := by
-      cases hf with
-      | inl h => exact Or.inl h
-      | inr h => simp only [elemsFull, Bool.and_eq_true] at h; exact Or.inr h.1
-    have hf2 : lax = true ∨ elemsFull es = true := by
-      cases hf with
-      | inl h => exact Or.inl h
-      | inr h => simp only [elemsFull, Bool.and_eq_true] at h; exact Or.inr h.2
-    obtain ⟨j, e1, e2⟩ := elem_conforms lax e hw.1 ht.1 hf1
-    obtain ⟨ms, m1, m2, m3⟩ := members_conform lax es hw.2 ht.2 hf2
+    obtain ⟨j, e1, e2⟩ := elem_conforms lax e hw.1 ht.1
+    obtain ⟨ms, m1, m2, m3⟩ := members_conform lax es hw.2 ht.2
     refine ⟨(tagKey e.tag, j) :: ms, by simp [membersToJson, e1, m1], ?_, ?_⟩
     · simp [membersF, isTagKey_tagKey, e2, m2]
     · simp [keysOf, tagsOf, m3]
 end
 
-/-- **C24 (all clauses but the last).** Every well-typed data set serialises without error or
-panic, and the output is a JSON object with 8-upper-hex keys in ascending order whose members
-have `"vr"` first and the Annex F value form of that VR — at every nesting depth. -/
-theorem annexF_toJson_lax (ds : DataSet) (hw : ds.wf = true) (ht : elemsTyped ds = true) :
-    ∃ j, toJson ds = .ok j ∧ annexFWith true j = true := by
-  simp only [DataSet.wf, Bool.and_eq_true] at hw
-  obtain ⟨ms, m1, m2, m3⟩ := members_conform true ds hw.1 ht (Or.inl rfl)
-  refine ⟨.obj ms, by simp [toJson, m1], ?_⟩
-  simp only [annexFWith, m2, Bool.and_true, m3]
-  exact keysAscending_map_tagKey _ hw.2 (tagsOf_lt ds hw.1)
-
-/-- **C24.** If moreover no value has multiplicity zero (other than `Empty`) and no sequence is
-item-less, the output satisfies the whole validator, including "empty ⇒ no Value member". -/
-theorem annexF_toJson (ds : DataSet) (hw : ds.wf = true) (ht : elemsTyped ds = true)
-    (hf : elemsFull ds = true) :
+/-- **C24.** Every well-typed data set (`DataSet.wf`: tags in the BTreeMap's order; `elemsTyped`:
+value variants belong to their VRs, numbers in range) serialises without error or panic, and the
+output passes the Annex F validator: an object with 8-upper-hex keys in ascending order whose
+members have `"vr"` first and the Annex F value form of that VR (AT as 8 hex digits, PN objects
+with `Alphabetic`, FL/FD/SL/SS/UL/US numbers with `"NaN"`/`"inf"`/`"-inf"` for non-finite floats,
+binary VRs as canonical base64 `InlineBinary`, sequences as arrays of such objects), and no
+`Value`/`InlineBinary` member for a value without items — at every nesting depth. -/
+theorem annexF_toJson (ds : DataSet) (hw : ds.wf = true) (ht : elemsTyped ds = true) :
     ∃ j, toJson ds = .ok j ∧ annexF j = true := by
   simp only [DataSet.wf, Bool.and_eq_true] at hw
-  obtain ⟨ms, m1, m2, m3⟩ := members_conform false ds hw.1 ht (Or.inr hf)
+  obtain ⟨ms, m1, m2, m3⟩ := members_conform false ds hw.1 ht
   refine ⟨.obj ms, by simp [toJson, m1], ?_⟩
   simp only [annexF, annexFWith, m2, Bool.and_true, m3]
   exact keysAscending_map_tagKey _ hw.2 (tagsOf_lt ds hw.1)
@@ -586,7 +547,7 @@ theorem annexF_toJson (ds : DataSet) (hw : ds.wf = true) (ht : elemsTyped ds = t
 `unreachable!("unexpected VR SQ …")` and `AsNumbers` on dates/tags, need an ill-typed element) -/
 theorem toJson_no_panic (ds : DataSet) (hw : ds.wf = true) (ht : elemsTyped ds = true) :
     toJson ds ≠ .panic := by
-  obtain ⟨j, h, _⟩ := annexF_toJson_lax ds hw ht
+  obtain ⟨j, h, _⟩ := annexF_toJson ds hw ht
   simp [h]
 
 /-- … and it *can* on an ill-typed one: a date under a numeric VR, a primitive under `SQ`. -/
@@ -594,28 +555,35 @@ theorem toJson_panics_illtyped :
     toJson [.prim 0x00280010 .US (.date [([50, 48], [50, 48])])] = .panic ∧
     toJson [.prim 0x00280010 .SQ (.str [65])] = .panic := ⟨rfl, rfl⟩
 
-/-- The hypothesis `elemsFull` is needed — finding `empty-value-has-member`: a zero-length
-`U16` vector, an empty `U8` buffer and an item-less sequence are written with a
-`Value`/`InlineBinary` member although the value is empty. -/
-theorem empty_vector_has_value :
-    (∃ j, toJson [.prim 0x00280010 .US (.u16 [])] = .ok j ∧ annexF j = false) ∧
-    (∃ j, toJson [.prim 0x7FE00010 .OB (.u8 [])] = .ok j ∧ annexF j = false) ∧
-    (∃ j, toJson [.seq 0x00081140 .SQ []] = .ok j ∧ annexF j = false) := by
-  refine ⟨⟨_, rfl, by decide⟩, ⟨_, rfl, by decide⟩, ⟨_, rfl, by decide⟩⟩
+/-- the binary clause says what the bytes are: `InlineBinary` decodes to the little-endian bytes -/
+theorem inlineBinary_decodes (p : Prim) (hr : p.inRange = true)
+    (hk : (match p with
+      | .u8 _ | .u16 _ | .u32 _ | .u64 _ | .f32 _ | .f64 _ => true
+      | _ => false) = true) :
+    ∃ s, inlineBinary p = .str s ∧ b64dec s = some (toBytes p) :=
+  ⟨_, rfl, b64dec_enc _ (toBytes_binary p hr hk).1⟩
+
+/-- values without items have no `Value`/`InlineBinary` member (repaired finding
+`empty-value-has-member`): a zero-length `U16` vector, an empty `U8` buffer, an item-less sequence -/
+example : toJson [.prim 0x00280010 .US (.u16 []), .prim 0x7FE00010 .OB (.u8 []), .seq 0x7FE00020 .SQ []]
+    = .ok (.obj [(ascii "00280010", .obj [(kVr, .str (ascii "US"))]),
+                 (ascii "7FE00010", .obj [(kVr, .str (ascii "OB"))]),
+                 (ascii "7FE00020", .obj [(kVr, .str (ascii "SQ"))])]) := by rfl
 
 /-- AT values are written as eight hex digits (repaired defect #8), e.g. `"00100020"` -/
 example : toJson [.prim 0x00209165 .AT (.tags [0x00100020])] =
     .ok (.obj [(ascii "00209165", .obj [(kVr, .str (ascii "AT")),
       (kValue, .arr [.str (ascii "00100020")])])]) := by rfl
 
-/-- non-vacuity: a data set with a nested sequence, a non-finite float, a big integer and a
-binary value meets all hypotheses of `annexF_toJson` -/
+/-- non-vacuity: a data set with nested sequences, a non-finite float, a big integer, binary
+values and empty vectors meets the hypotheses of `annexF_toJson` -/
 example :
     let ds : DataSet := [
       .prim 0x00080018 .UI (.strs [ascii "1.2.3 "]),
       .prim 0x00186020 .FL (.f32 [0x7FC00000, 0x3F800000]),
+      .prim 0x00280010 .US (.u16 []),
       .seq 0x00400275 .SQ [[.prim 0x00400009 .SV (.i64 [-9007199254740993])], []],
       .prim 0x7FE00010 .OW (.u16 [1, 65535])]
-    ds.wf = true ∧ elemsTyped ds = true ∧ elemsFull ds = true := by decide
+    ds.wf = true ∧ elemsTyped ds = true := by decide
 
 end Dicom.Json
